@@ -42,6 +42,9 @@ def jobs(tier, seed):
         Job("c11_fifty_move", "fifty-move rule for all clocks x (0..3 legal moves)", timeout=900, min_covers=2),
         Job("c11_repetition_window", "is_repeated_position on arbitrary histories (<= 6 entries), keys, clocks", timeout=1200, min_covers=2),
     ]
+    if tier == "thorough":
+        js.append(Job("c11_repetition_window_12", "is_repeated_position on arbitrary histories (<= 12 entries), keys, clocks",
+                      gen="#[kani::proof]\n#[kani::unwind(15)]\npub fn c11_repetition_window_12() { c11::repetition_window(12); }\n", timeout=3600, mem_gb=16, min_covers=2))
     for kind in range(6):
         for side in (0, 1):
             name = f"c11_history_entry_{KINDS[kind]}_{'wb'[side]}"
